@@ -402,6 +402,11 @@ type genOpts struct {
 	wantOver    int  // weight (out of 20) of over-filled replica sets
 	concentrate bool // most volumes share collection / disk type / writability and sit on few servers (gives volume.balance something to do)
 	minVol      int
+	// hotspot: a small hdd-only cluster where one or two servers in different racks hold the first replica of
+	// nearly every volume, many volumes are replicated with few copies, and the other servers are nearly empty
+	// with room to spare: volume.balance then plans long sequences of moves from the hot servers, in which later
+	// moves concern volumes whose sibling replicas sit on the source of an earlier move.
+	hotspot bool
 }
 
 func genMax(t *rapid.T, label string) int {
@@ -440,14 +445,28 @@ func feasible(servers []server, x, y, z int) bool {
 func genSnapshot(t *rapid.T, o genOpts) *snapshot {
 	s := &snapshot{}
 	nDC := rapid.IntRange(1, 3).Draw(t, "nDC")
+	if o.hotspot {
+		nDC = rapid.IntRange(1, 2).Draw(t, "nDCHotspot")
+	}
 	n := 0
 	for d := 1; d <= nDC; d++ {
 		nRack := rapid.IntRange(1, 3).Draw(t, "nRack")
+		if o.hotspot {
+			nRack = rapid.IntRange(2, 3).Draw(t, "nRackHotspot")
+		}
 		for r := 1; r <= nRack; r++ {
 			nSrv := rapid.IntRange(1, 4).Draw(t, "nSrv")
+			if o.hotspot && nSrv > 2 {
+				nSrv = 2
+			}
 			for k := 0; k < nSrv; k++ {
 				n++
 				sv := server{dc: fmt.Sprintf("dc%d", d), rack: fmt.Sprintf("r%d", r), id: fmt.Sprintf("s%d:8080", n), max: map[string]int{}}
+				if o.hotspot {
+					sv.max[""] = rapid.IntRange(6, 16).Draw(t, "maxHotspot")
+					s.servers = append(s.servers, sv)
+					continue
+				}
 				switch rapid.IntRange(0, 5).Draw(t, "disks") {
 				case 0:
 					sv.max["ssd"] = genMax(t, "maxSsd")
@@ -480,10 +499,50 @@ func genSnapshot(t *rapid.T, o genOpts) *snapshot {
 	domSsd := rapid.IntRange(0, 3).Draw(t, "dominantSsd") == 0
 	domRO := rapid.IntRange(0, 2).Draw(t, "dominantReadOnly") == 0
 	hot := rapid.IntRange(1, 3).Draw(t, "hotServers")
+	hotSet := map[int]bool{}
+	var fewCopies [][3]int
+	if o.hotspot {
+		domSsd = false
+		if nVol < 10 {
+			nVol = 10 + nVol
+		}
+		// the hot servers: one, or two in different racks, with room for everything
+		a := rapid.IntRange(0, len(s.servers)-1).Draw(t, "hotA")
+		hotSet[a] = true
+		if rapid.IntRange(0, 3).Draw(t, "twoHot") > 0 {
+			var other []int
+			for i, sv := range s.servers {
+				if sv.dc != s.servers[a].dc || sv.rack != s.servers[a].rack {
+					other = append(other, i)
+				}
+			}
+			if len(other) > 0 {
+				hotSet[other[rapid.IntRange(0, len(other)-1).Draw(t, "hotC")]] = true
+			}
+		}
+		for i := range s.servers {
+			if hotSet[i] {
+				s.servers[i].max[""] = 1000 // room for everything while placing; cut down to the load + slack below
+			}
+		}
+		for _, p := range feas {
+			if c := p[0] + p[1] + p[2]; c == 1 || c == 2 && rapid.IntRange(0, 3).Draw(t, "threeCopies") == 0 {
+				fewCopies = append(fewCopies, p)
+			}
+		}
+	}
 	for i := 1; i <= nVol; i++ {
 		v := volume{id: uint32(i)}
 		dominant := o.concentrate && rapid.IntRange(0, 9).Draw(t, "dominant") < 8
-		if rapid.IntRange(0, 9).Draw(t, "rpFeasible") < 7 {
+		if o.hotspot {
+			dominant = rapid.IntRange(0, 19).Draw(t, "dominant") > 0
+		}
+		if o.hotspot && len(fewCopies) > 0 && rapid.IntRange(0, 19).Draw(t, "hotspotRp") < 18 {
+			if rapid.IntRange(0, 9).Draw(t, "hotspotReplicated") < 6 {
+				p := rapid.SampledFrom(fewCopies).Draw(t, "rpFew")
+				v.x, v.y, v.z = p[0], p[1], p[2]
+			}
+		} else if rapid.IntRange(0, 9).Draw(t, "rpFeasible") < 7 {
 			p := rapid.SampledFrom(feas).Draw(t, "rp")
 			v.x, v.y, v.z = p[0], p[1], p[2]
 		} else {
@@ -526,7 +585,28 @@ func genSnapshot(t *rapid.T, o genOpts) *snapshot {
 				return -1
 			}
 			hi := len(c) - 1
-			if dominant && label == "main" && hi >= hot {
+			if o.hotspot && dominant && label == "main" {
+				var h []int
+				for _, i := range c {
+					if hotSet[i] {
+						h = append(h, i)
+					}
+				}
+				if len(h) > 0 {
+					c, hi = h, len(h)-1
+				}
+			} else if o.hotspot && dominant && len(hotSet) > 1 && rapid.Bool().Draw(t, "siblingOnHot") {
+				// the sibling replica prefers the other hot server
+				var h []int
+				for _, i := range c {
+					if hotSet[i] {
+						h = append(h, i)
+					}
+				}
+				if len(h) > 0 {
+					c, hi = h, len(h)-1
+				}
+			} else if dominant && label == "main" && hi >= hot {
 				hi = hot - 1 // the first replica of most volumes lands on one of a few servers
 			}
 			i := c[rapid.IntRange(0, hi).Draw(t, label)]
@@ -631,6 +711,17 @@ func genSnapshot(t *rapid.T, o genOpts) *snapshot {
 			v.replicas = append(v.replicas, r)
 		}
 		s.vols = append(s.vols, v)
+	}
+	if o.hotspot {
+		// the hot servers are (nearly) full, which is what makes them the balancer's sources
+		for i := range s.servers {
+			if hotSet[i] {
+				s.servers[i].max[""] = count[i][""] + rapid.IntRange(0, 4).Draw(t, "hotSlack")
+				if s.servers[i].max[""] == 0 {
+					s.servers[i].max[""] = 1
+				}
+			}
+		}
 	}
 	return s
 }
